@@ -269,3 +269,7 @@ package schema
 //@   requires typ.rootNode != nil ==> basisLex(typ.rootNode).file == rootFile
 //@   maypanic
 //@   modifies s.types[*]
+
+//@ interface Node.RealType(self)
+//@   requires isNode(self)
+//@   pure
